@@ -27,6 +27,28 @@ def digest(res):
     return (res.get("ui"), res.get("header"), ds, tuple(sorted(map(str, res.get("syntax_errors", [])))))
 
 
+ROLES = ["window", "windowText", "base", "alternateBase", "text", "button", "buttonText", "brightText", "highlight", "highlightedText", "toolTipBase", "toolTipText", "link", "mid", "dark"]
+COLORS = ['"black"', '"white"', '"#112233"', '"red"', '"#80ff0000"', '"gray"', '"steelblue"']
+
+
+def palette_documents(rng, n):
+    """palettes mixing palette-level default roles with explicit colour groups (each a hash map; defaults are merged into the groups)"""
+    docs = []
+    for _ in range(n):
+        lines = ["import qmluic.QtWidgets", "QWidget {"]
+        for r in rng.sample(ROLES, rng.randrange(1, 7)):
+            lines.append("    palette.%s: %s" % (r, rng.choice(COLORS)))
+        for g in rng.sample(["active", "inactive", "disabled"], rng.randrange(1, 4)):
+            for r in rng.sample(ROLES, rng.randrange(1, 6)):
+                lines.append("    palette.%s.%s: %s" % (g, r, rng.choice(COLORS)))
+        lines.append("    QLabel {")
+        lines.append("        palette { window: %s; disabled { windowText: %s; base: %s } }" % (rng.choice(COLORS), rng.choice(COLORS), rng.choice(COLORS)))
+        lines.append("    }")
+        lines.append("}")
+        docs.append("\n".join(lines) + "\n")
+    return docs
+
+
 def run(ctx):
     ctx.proof_leg(TARGETS, PINS, k_targets=U.K_TARGETS)
     vh = ctx.need_harness()
@@ -41,7 +63,7 @@ def run(ctx):
         wide.append(U.render(r))
         ctx.dist("wide" + ("-with-errors" if i % 2 else ""))
     corpus = D.corpus()
-    others = list(corpus)
+    others = list(corpus) + palette_documents(rng, 12 if ctx.tier == "thorough" else 5)
     for src in corpus[: (len(corpus) if ctx.tier == "thorough" else 40)]:
         others.append(D.mutate(rng, src))
     for _ in others:
